@@ -27,9 +27,9 @@ CHECKS = {
  "C06": ("exh", EXH + " (admission decision table on the real AdmissionPolicy, oracle per eviction round from events, estimates read back)",
          "All enumerated (resident sequence, weights, access profile, incoming key) cases for W in 3..8: fast path, too-heavy rejection, and for every eviction round: sample size/distinctness/membership, victim is a coldest sample member, never hotter than the incoming key when evicted, eviction stops when space suffices, accepted iff enough space, totals.",
          "estimates are inputs (read back), ties may go either way; table bounds as listed in the evidence", "DESIGN.md §5/C06"),
- "C07": ("seq", SEQ,
-         "Key 1 is driven into every life-cycle state the sequential API reaches (never written, live, live+TTL, deleted, evicted, swept, expired-unswept); each of the four put variants is applied in each state and compared with the state snapshot before/after; the same BFS binds the readability model to all seven read variants.",
-         SEQ_NOTE, "DESIGN.md §5/C07"),
+ "C07": ("seq+ilv", SEQ + " + " + BASE + " (several puts of one key in flight)",
+         "Key 1 is driven into every life-cycle state the sequential API reaches (never written, live, live+TTL, deleted, evicted, swept, expired-unswept); each of the four put variants is applied in each state and compared with the state snapshot before/after, readability being taken from a real read issued right before the put (which also settles the exact expiry instant); the same BFS binds the readability model to all seven read variants; under the scheduler, of several in-flight puts of one key (all variants) at most one is accepted and its entry is not overwritten.",
+         SEQ_NOTE + "; " + ILV_NOTE, "DESIGN.md §5/C07"),
  "C08": ("seq+ilv", SEQ + " with a before/after entry oracle and a differential twin-cache oracle; " + BASE + " with the worker frozen",
          "The 11 request shapes x key states {absent, live, live+TTL, expired-unswept} x one preceding operation; readable keys: exactly the requested fields change; absent keys: behaves like the corresponding put (specification and twin cache); visibility at return and the soft-deleted state under the scheduler.",
          SEQ_NOTE + "; " + ILV_NOTE, "DESIGN.md §5/C08"),
@@ -54,12 +54,12 @@ CHECKS = {
  "C15": ("ilv+seq", BASE + " (consumer optionally frozen, buffer index as data choice) with a conservation oracle; " + SEQ,
          "2 readers x 2-4 reads, pool size 1-2, buffer size 1-2, access channel shrunk to 1-2, consumer running, slow or never scheduled: hits = buffered + delivered + dropped at the end of every execution, delivered = applied, no reader ever waits for the consumer; BFS over read sequences.",
          ILV_NOTE + "; the channel capacity constant (10) is shrunk by the shim so that saturation is reachable", "DESIGN.md §5/C15"),
- "C16": ("seq", SEQ + "; counter identities in delta form on every transition",
-         "Per transition: hits+misses = lookups, hits = successful lookups, keys added-deleted = change of held keys, weight added-removed = change of total weight, rejected = admission refusals; per state the hit-ratio formula; with and without memory pressure, all-hit and all-miss workloads.",
-         SEQ_NOTE, "DESIGN.md §5/C16"),
- "C17": ("seq", SEQ + " over a boundary-value alphabet; caller panics caught per call, background panics / dead workers fail the execution",
-         "Weights {1,24,25,W,W+1,i64::MAX} x TTL {0,1ns,1s,u64::MAX s,Duration::MAX} x counters 1..3 x W in {1,30,i64::MAX} with queue/pool/buffer size 1, all put variants and upsert shapes, depth 2-3; overflow checks on.",
-         SEQ_NOTE + "; exhaustive over the listed boundary values, not over i64/Duration", "DESIGN.md §5/C17"),
+ "C16": ("seq+ilv", SEQ + "; counter identities in delta form on every transition; " + BASE + " with the statistics counters as scheduling points",
+         "Per transition: hits+misses = lookups, hits = successful lookups, keys added-deleted = change of held keys, weight added-removed = change of total weight, rejected = admission refusals; per state the hit-ratio formula; with and without memory pressure, all-hit and all-miss workloads; the same identities at quiescence after concurrent clients (lost counter updates are a schedule away).",
+         SEQ_NOTE + "; " + ILV_NOTE, "DESIGN.md §5/C16"),
+ "C17": ("seq+ilv", SEQ + " over a boundary-value alphabet; caller panics caught per call, background panics / dead workers fail the execution; " + BASE + " for valid calls racing sweeper, worker and shutdown",
+         "Weights {1,24,25,W,W+1,i64::MAX} x TTL {0,1ns,1s,u64::MAX s,Duration::MAX} x counters 1..3 x W in {1,30,i64::MAX} with queue/pool/buffer size 1, all put variants and upsert shapes, depth 2-3 (+3 in the thorough tier); overflow checks on; five concurrent programs in which an expired key leaves the expiry index (delete, TTL change, shutdown) while the sweeper works.",
+         SEQ_NOTE + "; exhaustive over the listed boundary values, not over i64/Duration; " + ILV_NOTE, "DESIGN.md §5/C17"),
  "C18": ("ilv", BASE + " with built-in deadlock detection, two rwlock fairness models, liveness probes",
          "Six maximal-lock-sharing programs (one shard, queue 1, pool 1, buffer 1; upserts with TTL change, evictions, sweeps, hand-overs, shutdown, iterators) under the reader-preferring and parking_lot's writer-preferring rwlock rule; a deadlock is a state with an unfinished task and none enabled; afterwards worker, sweeper and consumer must answer a probe. Every other property's scenarios detect deadlocks too.",
          ILV_NOTE + "; callers never hold a get_ref guard across another call", "DESIGN.md §5/C18"),
@@ -98,11 +98,12 @@ m = {
  "engines": [
    {"name": "ilv", "path": "/verif/mc/src/harness/ilv.rs", "serves_properties": sorted(k for k,v in CHECKS.items() if "ilv" in v[0]), "kind_free_text": "stateless preemption-bounded exhaustive DFS over thread interleavings of the real code (shuttle runtime, own Scheduler with decision stack, replay, prefix-partitioned parallel search)"},
    {"name": "seq", "path": "/verif/mc/src/harness/seq.rs", "serves_properties": sorted(k for k,v in CHECKS.items() if "seq" in v[0]), "kind_free_text": "explicit-state breadth-first search over operation sequences on the real code with canonical-state deduplication"},
+   {"name": "native-conformance", "path": "/verif/mc/src/verif_rt/native/mod.rs", "serves_properties": sorted(k for k,v in CHECKS.items() if "seq" in v[0]), "kind_free_text": "replays every sequential history (up to depth 3-4) explored by the sched build on the real parking_lot/dashmap/crossbeam-channel build and requires identical API results and canonical states"},
    {"name": "exh", "path": "/verif/mc/src/harness/exh.rs", "serves_properties": sorted(k for k,v in CHECKS.items() if "exh" in v[0]), "kind_free_text": "exhaustive enumeration of inputs of pure components against reference models"},
  ],
  "checks": checks,
  "not_applicable": na,
- "notes": "All checks run /verif/check, which rebuilds /verif/mc from /repo's working tree. Exit 2 = machinery failure, never a verdict. known_findings.jsonl lists genuine defects (fixed or recorded).",
+ "notes": "All checks run /verif/check, which rebuilds /verif/mc (two flavours: sched = controlled scheduler, native = real crates for the conformance replay) from /repo's working tree, runs the explorer self-test, the property's scenarios and the native conformance replay of the sequential traces. Exit 2 = machinery failure, never a verdict. known_findings.jsonl lists genuine defects (fixed, or recorded with a narrow signature). seeded/ holds 36 independently written property-breaking changes with what reports them.",
 }
 json.dump(m, open("/verif/MANIFEST.json","w"), indent=1)
 print("checks:", [c["property_id"] for c in checks], "n/a:", len(na))
